@@ -241,7 +241,8 @@ def determinism_sample(prop, tier, seed, shadow_dir, results, n, run_timeout):
     def one(job):
         i, hs, tag = job
         res, err = call_worker({'check': prop, 'seed': seed, 'tier': tier,
-                                'indices': [i], 'run_timeout': run_timeout},
+                                'indices': [i], 'run_timeout': run_timeout,
+                                'isolate': True},
                                shadow_dir, hs, run_timeout + 60)
         return i, tag, (res[0].get('digest') if res and not err else
                         'ERR:%s' % err)
@@ -291,7 +292,33 @@ def minimise_and_verify(prop, case, v, shadow_dir):
     if not ok and final is not case:
         final = case
         note += ' (minimised case did not replay; reporting original)'
-    elif not ok:
+        rres, rerr = call_worker({'check': prop, 'kind': 'replay',
+                                  'case': final}, shadow_dir, hs, 660)
+        ok = bool(rres) and not rerr and \
+            rres[0].get('verdict') == 'violation' and \
+            any(x['class_key'] == v['class_key']
+                for x in rres[0].get('violations', []))
+    if not ok and all(k in case for k in ('seed', 'idx', 'tier')):
+        # not reproducible alone: the violation may depend on state an
+        # earlier run of the same worker left behind - replay the block
+        mod = importlib.import_module('checks.' + prop.lower())
+        block = mod.TIERS[case['tier']]['block']
+        start = (case['idx'] // block) * block
+        seq = {'sequence': {'seed': case['seed'], 'tier': case['tier'],
+                            'indices': list(range(start, case['idx'] + 1))},
+               'hashseed': hs}
+        rres, rerr = call_worker({'check': prop, 'kind': 'replay',
+                                  'case': seq}, shadow_dir, hs, 1800)
+        ok = bool(rres) and not rerr and \
+            rres[0].get('verdict') == 'violation' and \
+            any(x['class_key'] == v['class_key']
+                for x in rres[0].get('violations', []))
+        if ok:
+            final = seq
+            note += ' (needs the %d preceding runs of its block: state ' \
+                    'carried across runs; replay file re-executes them)' \
+                    % (case['idx'] - start)
+    if not ok:
         note += ' (WARNING: replay in fresh process did not reproduce)'
     path = write_replay(prop, final, v['class_key'], v['message'])
     return path, note
